@@ -172,7 +172,7 @@ func q(s string) string { return strconvQuote(s) }
 // consistent: can an input satisfying the assumptions follow this path? (no syntactic contradiction)
 func consistent(p *Path, assume []Atom) bool {
 	x := &explorer{}
-	st := &state{gkeys: map[string]bool{}}
+	st := &state{gkeys: map[string]bool{}, loopRange: map[int]string{}}
 	for _, a := range assume {
 		if !x.assume(st, a) {
 			return false
